@@ -1136,6 +1136,11 @@ class FoldConstantsPass(ir.passes.InPlacePass):
             )
             return None
 
+        if output_array.dtype.kind in ("O", "S", "U"):
+            # String tensors need ir.StringTensor; ir.tensor() would build a tensor that cannot be serialized.
+            logger.info("Skip storing constant folded string value %s.", output_name)
+            return None
+
         tensor = ir.tensor(output_array)
         tensor.name = output_name
 
